@@ -336,7 +336,7 @@ struct Acc {
     recheck_mismatch: u64,
     invalid: u64,
     max_pos: u128,
-    failures: Vec<(u64, String)>,
+    failures: Vec<(u64, String, String)>,
     harness: Vec<String>,
     samples: Vec<(u64, J)>,
     modes: BTreeMap<String, u64>,
@@ -419,7 +419,7 @@ pub fn run_check(def: &CheckDef, opts: &RunOpts) -> i32 {
         "vsim check={} tier={} VERIF_SEED={} runs={} threads={}",
         def.id, tier, opts.seed, total, opts.threads
     );
-    let findings = match load_findings(&opts.root) {
+    let findings = match load_findings(&opts.root).and_then(|f| crate::findings::validate(&f).map(|_| f)) {
         Ok(f) => f,
         Err(e) => {
             println!("HARNESS-ERROR: {}", e);
@@ -484,7 +484,7 @@ pub fn run_check(def: &CheckDef, opts: &RunOpts) -> i32 {
                                     a.samples.push((r, scn.brief().with("run", J::U(r as u128)).with("run_seed", J::U(seed as u128))));
                                 }
                             }
-                            Verdict::Violation { clause, .. } => a.failures.push((r, clause)),
+                            Verdict::Violation { clause, detail } => a.failures.push((r, clause, detail)),
                             Verdict::Invalid(_) => a.invalid += 1,
                             Verdict::Harness(m) => a.harness.push(format!("run {}: {}", r, m)),
                         }
@@ -515,16 +515,23 @@ pub fn run_check(def: &CheckDef, opts: &RunOpts) -> i32 {
 
     // classify failures in run-index order; shrink each (bounded) so that known findings are
     // recognised on the minimised trace and anything else is reported
-    let max_classify = 48usize;
+    let max_shrunk = 64usize;
+    let mut shrunk = 0usize;
     let mut unclassified = 0u64;
-    for (idx, (r, clause)) in acc.failures.iter().enumerate() {
-        if idx >= max_classify {
-            unclassified += 1;
-            continue;
-        }
+    for (r, clause, detail0) in acc.failures.iter() {
         let seed = run_seed(opts.seed, def.id, *r);
         let mut rng = Rng::new(seed);
         let scn = (def.r#gen)(&mut rng, opts.tier_thorough);
+        // the predicates look at the failing operation itself, so they apply to the raw trace too
+        if let Some(f) = crate::findings::classify(&findings, def.id, &scn, clause, detail0) {
+            *known_hits.entry(f).or_insert(0) += 1;
+            continue;
+        }
+        if shrunk >= max_shrunk {
+            unclassified += 1;
+            continue;
+        }
+        shrunk += 1;
         let (min, tries) = shrink(def, &scn, clause, 3000);
         let mut ctx = Ctx::new();
         let v = guarded(def.exec, &min, &mut ctx);
@@ -583,10 +590,9 @@ pub fn run_check(def: &CheckDef, opts: &RunOpts) -> i32 {
             exit = 1;
         }
     }
-    if unclassified > 0 && violations == 0 && exit == 0 {
-        // more failures than we minimise: do not let an unknown one hide behind known ones
-        println!("HARNESS-ERROR: {} failing runs were not classified (too many failures); lower the rate of known-finding patterns", unclassified);
-        exit = 2;
+    if unclassified > 0 {
+        println!("note: {} further failing runs match no known finding and were not minimised (limit {})", unclassified, max_shrunk);
+        violations += unclassified;
     }
     for f in findings.iter().filter(|f| f.property == def.id && f.status == "open") {
         let n = known_hits.get(&f.id).copied().unwrap_or(0);
@@ -675,6 +681,15 @@ pub fn run_check(def: &CheckDef, opts: &RunOpts) -> i32 {
     if let Err(e) = std::fs::write(&evpath, ev.pretty()) {
         println!("HARNESS-ERROR: cannot write evidence {}: {}", evpath, e);
         return 2;
+    }
+    {
+        let mut by: BTreeMap<&str, u64> = BTreeMap::new();
+        for (_, c, _) in &acc.failures {
+            *by.entry(c.as_str()).or_insert(0) += 1;
+        }
+        if !by.is_empty() {
+            println!("failing runs by oracle clause (before classification): {:?}", by);
+        }
     }
     println!(
         "done: property={} evaluations={} distinct_nontrivial={} failures={} violations={} known={} wall={:.1}s exit={}",
